@@ -120,6 +120,21 @@ Nested(ch, v, origin, tag) ==
 \* decides: the current value first is no change and one change follows; the other value first is two changes.
 LocalPair(ch) == LocalSet(ch, 1 - val[ch]) \/ Nested(ch, 1 - val[ch], "app", "Local")
 
+\* The application changes a value three times (to the other value, back, and to the other value again) while connection c
+\* has a request in flight: the events for c are held back until its response is written and then delivered, all three, in
+\* order (guard held_back_events_all_delivered; an implementation that drops a held-back message which equals one it holds
+\* already loses the third).  The others get theirs at once.
+DuringRequest(c, ch) ==
+  /\ c \in open
+  /\ LET a == 1 - val[ch]
+         tg == Targets(ch, "app")
+         three == << <<ch, a>>, <<ch, val[ch]>>, <<ch, a>> >> IN
+     /\ val' = [val EXCEPT ![ch] = a]
+     /\ got' = [x \in Conn |-> IF x \notin tg THEN <<>>
+                               ELSE IF x = c /\ ~Guard("held_back_events_all_delivered") THEN SubSeq(three, 1, 2) ELSE three]
+     /\ dup' = FALSE /\ appPanic' = FALSE
+  /\ last' = <<"During", c, ch, 1 - val[ch]>> /\ UNCHANGED <<open, subs>>
+
 \* one PUT entry carrying a value AND ev (hap/http/characteristics.go:128-150: the value is written first, then the
 \* subscription changes); sub = TRUE subscribes, FALSE unsubscribes
 RemoteWriteEv(c, ch, v, sub) ==
@@ -140,6 +155,7 @@ Next == \/ \E c \in Conn : Connect(c) \/ Close(c)
         \/ \E ch \in Char, v \in Vals, c \in Conn, sub \in BOOLEAN : RemoteWriteEv(c, ch, v, sub)
         \/ \E ch \in Char, v \in Vals, c, d \in Conn : RemoteWriteRace(c, d, ch, v)
         \/ \E ch \in Char, v \in Vals, o \in Conn \cup {"app"} : Nested(ch, v, o, "Nested")
+        \/ \E ch \in Char, c \in Conn : DuringRequest(c, ch)
 Spec == Init /\ [][Next]_vars
 
 \* ---- the property, phrased on observables only: `want` is the monitor's ghost (what each open connection asked for)
@@ -153,7 +169,10 @@ GNext == Next /\ WantNext
 GSpec == GInit /\ [][GNext]_<<vars, want>>
 
 Listens(c, ch) == c \in open /\ <<c, ch>> \in want
-Expected(c) == IF last'[1] = "Nested"
+Expected(c) == IF last'[1] = "During"
+               THEN (IF Listens(c, last'[3]) THEN << <<last'[3], last'[4]>>, <<last'[3], val[last'[3]]>>, <<last'[3], last'[4]>> >> ELSE <<>>)
+               ELSE
+               IF last'[1] = "Nested"
                THEN (IF Listens(c, last'[3]) /\ c # last'[2] THEN << <<last'[3], last'[4]>> >> ELSE <<>>)
                     \o (IF Listens(c, last'[3]) THEN << <<last'[3], val[last'[3]]>> >> ELSE <<>>)
                ELSE
